@@ -14,6 +14,7 @@ import ast
 from typing import Dict, List, Optional, Set, Tuple
 
 from ..effects import Effects, Write
+from ..sym import Frame, is_private_helper
 from ..model import AnalysisError, ClassInfo, FunctionInfo, Model
 from ..paths import Event, Path, PathEnumerator, find_calls
 from ..report import Report
@@ -363,11 +364,17 @@ def h2(model: Model, rep: Report, cg: CallGraph, ef: Effects):
                 continue  # constructs a new object
             if w.receiver == "self" and path and _fresh_self(cg, path):
                 continue
-            key = (w.fn.qualname, norm_stmt(w.node))
+            # a write inside a private helper belongs to the public method it was extracted from
+            owner = w.fn
+            for x in reversed(path):
+                if not is_private_helper(x):
+                    owner = x
+                    break
+            key = (owner.qualname, norm_stmt(w.node))
             if key in seen:
                 continue
             seen.add(key)
-            rep.fail("C03.H2", f"{w.fn.qualname}[writes {w.attr}]", w.loc, found=f"{norm_stmt(w.node)}  (reached from {o.qualname} via {' -> '.join(x.qualname for x in path)})",
+            rep.fail("C03.H2", f"{owner.qualname}[writes {w.attr}]", w.loc, found=f"{norm_stmt(w.node)}  (reached from {o.qualname} via {' -> '.join(x.qualname for x in path)})",
                      required="observers leave circuit state untouched", what=f"an observation rewrites '{w.attr}' of an existing object: later answers depend on whether it was made",
                      detail=f"{w.attr}")
     if not seen:
@@ -400,44 +407,51 @@ def h3(model: Model, rep: Report):
                        "and restores the value read from the same location on entry (a local bound before the override)")
     f = model.function("registry_duration", "temporary_override_get_registry_at")
     construct = "temporary_override_get_registry_at"
-    trys = [n for n in ast.walk(f.node) if isinstance(n, ast.Try)]
-    if len(trys) != 1 or not trys[0].finalbody:
-        rep.fail("C03.H3", construct, f.loc, found=f"{len(trys)} try statements", required="try: override; yield  finally: restore",
-                 what="the override is not undone on every exit", detail="no-finally")
-        return
-    t = trys[0]
-    body_assigns = [s for s in t.body if isinstance(s, ast.Assign) and isinstance(s.targets[0], ast.Attribute)]
-    fin_assigns = [s for s in t.finalbody if isinstance(s, ast.Assign) and isinstance(s.targets[0], ast.Attribute)]
-    yields = [s for s in t.body if isinstance(s, ast.Expr) and isinstance(s.value, ast.Yield)]
-    ok_shape = len(body_assigns) == 1 and len(fin_assigns) == 1 and len(yields) == 1
-    rep.check(ok_shape, "C03.H3", construct + "[shape]", f.loc, found=f"{len(body_assigns)} override(s), {len(yields)} yield, {len(fin_assigns)} restore(s) in finally",
-              required="one override and the yield inside try, one restore in finally", what="the override is not installed / removed exactly once around the managed block",
-              detail="shape")
-    if not ok_shape:
-        return
-    loc_txt = ast.unparse(body_assigns[0].targets[0])
-    same_loc = ast.unparse(fin_assigns[0].targets[0]) == loc_txt
-    rep.check(same_loc, "C03.H3", construct + "[location]", f.loc, found=f"override {loc_txt}; restore {ast.unparse(fin_assigns[0].targets[0])}", required="same location",
-              what="the finally block restores a different location than the one overridden", detail="location")
-    v = fin_assigns[0].value
-    saved_ok = False
-    found = ast.unparse(v)
-    if isinstance(v, ast.Name):
-        # bound inside this function, before the try, from a read of the same location
-        binds = [s for s in f.node.body if isinstance(s, (ast.Assign, ast.AnnAssign)) and s.lineno < t.lineno
-                 and any(isinstance(x, ast.Name) and x.id == v.id for x in (s.targets if isinstance(s, ast.Assign) else [s.target]))]
-        rebinds = [s for s in ast.walk(t) if isinstance(s, (ast.Assign, ast.AnnAssign, ast.AugAssign))
-                   and any(isinstance(x, ast.Name) and x.id == v.id for x in (s.targets if isinstance(s, ast.Assign) else [s.target]))]
-        if len(binds) == 1 and not rebinds and binds[0].value is not None and ast.unparse(binds[0].value) == loc_txt:
-            saved_ok = True
-        elif not binds:
-            found += " (not bound in this function before the override: a value captured elsewhere, e.g. at import time)"
-    rep.check(saved_ok, "C03.H3", construct + "[restores-entry-value]", f.loc, found=found, required=f"a local bound before the try to {loc_txt}",
-              what="leaving the override does not reinstall what was active when it was entered (a nested or outer override is dropped)", detail="restore-value")
-    # the yield must be inside the try, the override before the yield
-    order = [type(s).__name__ for s in t.body if s in body_assigns or s in yields]
-    rep.check(t.body.index(body_assigns[0]) < t.body.index(yields[0]), "C03.H3", construct + "[order]", f.loc, found=order, required="override, then yield",
-              what="the managed block runs before the override is installed", detail="order")
+    ev = Evaluator(model, inline_methods=False)
+    try:
+        ps = PathEnumerator(ev).function_paths(f)
+    except Unsupported as e:
+        raise AnalysisError(f"{construct}: {e}")
+    n = 0
+    for p in ps:
+        n += 1
+        evs = flat_events(p) if False else p.events
+        kinds = [e.kind for e in evs]
+        stores_ = [(i, e) for i, e in enumerate(evs) if e.kind == "store" and e.term[1][0] == "cls"]
+        i_try = kinds.index("try") if "try" in kinds else None
+        i_fin = kinds.index("finally") if "finally" in kinds else None
+        ys = [i for i, k in enumerate(kinds) if k == "yield"]
+        if i_try is None or i_fin is None:
+            rep.fail("C03.H3", construct, f.loc, found="no try/finally around the managed block on some path", required="try: override; yield  finally: restore",
+                     what="the override is not undone on every exit", detail="no-finally")
+            continue
+        before = [(i, e) for i, e in stores_ if i_try < i < i_fin]
+        after = [(i, e) for i, e in stores_ if i > i_fin]
+        outside = [(i, e) for i, e in stores_ if i < i_try]
+        ok_shape = len(before) == 1 and len(after) == 1 and len(ys) == 1 and not outside and i_try < ys[0] < i_fin
+        rep.check(ok_shape, "C03.H3", construct + "[shape]", f.loc, found=f"{len(before) + len(outside)} override(s), {len(ys)} yield, {len(after)} restore(s) in finally",
+                  required="one override and the yield inside try, one restore in finally", what="the override is not installed / removed exactly once around the managed block",
+                  detail="shape")
+        if not ok_shape:
+            continue
+        (io, eo), (ir, er) = before[0], after[0]
+        loc_o, loc_r = (eo.term[1], eo.term[2]), (er.term[1], er.term[2])
+        loc_txt = f"{loc_o[0][1]}.{loc_o[1]}"
+        rep.check(loc_o == loc_r, "C03.H3", construct + "[location]", f.loc, found=f"override {loc_txt}; restore {loc_r[0][1]}.{loc_r[1]}", required="same location",
+                  what="the finally block restores a different location than the one overridden", detail="location")
+        # what is put back: the value of the location as read by this call before overriding it
+        entry_value = ev.attr(loc_o[0], loc_o[1], Frame(f, f.module, {}, None, 0))
+        origin = _value_origin(f, evs, ir)
+        saved_ok = er.term[3] == entry_value and origin == "local-read-before-try:" + loc_txt
+        found = show(er.term[3])
+        if er.term[3] == entry_value and not saved_ok:
+            found += f" ({origin or 'not bound in this function before the override: a value captured elsewhere, e.g. at import time'})"
+        rep.check(saved_ok, "C03.H3", construct + "[restores-entry-value]", f.loc, found=found, required=f"a local bound before the try to {loc_txt}",
+                  what="leaving the override does not reinstall what was active when it was entered (a nested or outer override is dropped)", detail="restore-value")
+        rep.check(io < ys[0], "C03.H3", construct + "[order]", f.loc, found="override, then yield" if io < ys[0] else "yield, then override", required="override, then yield",
+                  what="the managed block runs before the override is installed", detail="order")
+    if n == 0:
+        raise AnalysisError(f"{construct}: no paths")
     # clear_lru_cache
     g = model.function("custom_context_managers", "clear_lru_cache")
     trys = [n for n in ast.walk(g.node) if isinstance(n, ast.Try)]
@@ -449,6 +463,48 @@ def h3(model: Model, rep: Report):
         any(isinstance(s, ast.Expr) and isinstance(s.value, ast.Yield) for s in trys[0].body)
     rep.check(ok, "C03.H3", "clear_lru_cache", g.loc, found="clear before try and in finally" if ok else "shape changed", required="clear on entry and, in finally, on exit",
               what="the memo is not cleared on both sides of the managed block", detail="clear-both")
+
+
+def _value_origin(f: FunctionInfo, evs, idx: int) -> Optional[str]:
+    """Where the value stored by event ``idx`` comes from, syntactically: follows a closure parameter to the argument at its call site and
+    a local name to its (single) binding in the function body before the first try."""
+    e = evs[idx]
+    v = getattr(e.node, "value", None)
+    for _ in range(4):
+        if not isinstance(v, ast.Name):
+            return None
+        # closure parameter?  (the innermost enter-local before idx whose def has that parameter)
+        depth, hit = 0, None
+        for j in range(idx - 1, -1, -1):
+            if evs[j].kind == "leave-local":
+                depth += 1
+            elif evs[j].kind == "enter-local":
+                if depth:
+                    depth -= 1
+                    continue
+                hit = evs[j]
+                break
+        if hit is not None:
+            call = hit.node
+            d = next((n for n in ast.walk(f.node) if isinstance(n, ast.FunctionDef) and n.name == hit.term[1] and n is not f.node), None)
+            if d is not None:
+                params = [a.arg for a in d.args.posonlyargs + d.args.args]
+                if v.id in params:
+                    k = params.index(v.id)
+                    kw = {x.arg: x.value for x in call.keywords}
+                    v = kw.get(v.id, call.args[k] if k < len(call.args) else None)
+                    idx = evs.index(hit)
+                    continue
+        trys = [n for n in ast.walk(f.node) if isinstance(n, ast.Try)]
+        first_try = min((t.lineno for t in trys), default=10 ** 9)
+        binds = [s for s in f.node.body if isinstance(s, (ast.Assign, ast.AnnAssign)) and s.lineno < first_try
+                 and any(isinstance(x, ast.Name) and x.id == v.id for x in (s.targets if isinstance(s, ast.Assign) else [s.target]))]
+        rebinds = [s for t in trys for s in ast.walk(t) if isinstance(s, (ast.Assign, ast.AnnAssign, ast.AugAssign))
+                   and any(isinstance(x, ast.Name) and x.id == v.id for x in (s.targets if isinstance(s, ast.Assign) else [s.target]))]
+        if len(binds) == 1 and not rebinds and binds[0].value is not None:
+            return "local-read-before-try:" + ast.unparse(binds[0].value)
+        return None
+    return None
 
 
 def _enclosing_stmt(fn_node: ast.AST, target: ast.AST) -> ast.AST:
